@@ -79,7 +79,7 @@
   "C10"
  ],
  "level": "P",
- "tier": "wip",
+ "tier": "quick",
  "harness": "h_split",
  "replace": [
   "dx_insert_entry",
